@@ -2,6 +2,8 @@ SPECIFICATION Spec
 CONSTANTS
   Atomic = TRUE
   Readers = 0
+  Lookups = 0
+  NegCache = FALSE
   CachedView = FALSE
 INVARIANT InvAtMostOnce
 CHECK_DEADLOCK FALSE
